@@ -149,6 +149,17 @@ class HilbertClimateNetwork(ClimateNetwork):
             if directed:
                 self.adjacency = self.adjacency * (self.phase_shift() > 0)
 
+    def set_threshold(self, threshold):
+        """
+        Generate the climate network at a new threshold. A directed Hilbert
+        network keeps only the links with positive phase shift, as at
+        construction.
+
+        :arg number threshold: Threshold for network construction.
+        """
+        ClimateNetwork.set_threshold(self, threshold)
+        self._set_directed(self.directed, calculate_coherence=False)
+
     def set_directed(self, directed):
         """
         Switch between directed and undirected Hilbert climate network.
